@@ -25,7 +25,7 @@ HEAVY = {"bigcrash": 3}
 # is not recorded; cachefault: a failing cache read is not an event of the model; sharedissuer: two submitters of one new issuer reach the pool in either order, which
 # the model's atomic EvSubmit cannot express; rcparallel: the real recompute-cache process runs concurrently with a round), only
 # the property monitors count. Value = histories per job.
-PROBES = {"tamperfull": 2, "storm": 6, "rcparallel": 1, "sharedissuer": 8, "cachefault": 6}
+PROBES = {"tamperfull": 2, "storm": 6, "rcparallel": 1, "sharedissuer": 8, "cachefault": 6, "hugecrash": 1}
 
 
 def run_harness(hexe, seed, n, scenario, out):
@@ -102,7 +102,7 @@ def main(prop, prop_v, tier, seed, replay, scenarios, own_prefixes, known_prefix
             if prop in ("C01", "C03"):
                 # every crash position of a round x a failing operation at every position of the recovery (96 histories;
                 # thorough: also with the failure applied)
-                for base in range(0, 96 if tier == "quick" else 192, 32):
+                for base in range(0, (96 if prop == "C01" else 64) if tier == "quick" else 192, 32):
                     jobs.append((seed * 1000 + 700 + base, "recoverfault:%d" % base))
             if tier == "thorough" and prop in ("C01", "C02", "C03", "C04"):
                 # systematic crash placement: every crash position of a round x every crash position
